@@ -122,6 +122,9 @@ Proof. unfold nretry. intros ->. reflexivity. Qed.
 Lemma nretry_arm s s' d : timers s' = timers s ++ [(d, TRetry)] -> nretry s' = S (nretry s).
 Proof. unfold nretry. intros ->. rewrite filter_app, app_length. cbn. lia. Qed.
 
+Lemma nretry_hack s s' d : timers s' = timers s ++ [(d, THack)] -> nretry s' = nretry s.
+Proof. unfold nretry. intros ->. rewrite filter_app, app_length. cbn. lia. Qed.
+
 Ltac kclause s0 :=
   try (rewrite ?(nretry_eq s0) by reflexivity);
   try solve [ intuition (try congruence; try lia) ].
@@ -771,4 +774,360 @@ Proof.
   unfold handleError, removeAndResetChannel. rewrite Hs, Hc. cbn [kstate_eqb].
   eapply wpT_mono; [|apply (retry_after_unreg s i false KDisconnected); auto].
   intros s' (K' & Kd' & SC). eapply sameC_post; eauto using reset_neutral.
+Qed.
+
+(* ------------------------------------------------------------------ the functor queue *)
+Lemma pop_sameK s f r : pending s = f :: r -> is_kfunctor f = false -> sameK s (set_pending s r).
+Proof.
+  intros Hp Hf. unfold sameK. cbn. rewrite Hp, count_rc_cons, nstart_cons, has_k_cons, Hf.
+  unfold is_kfunctor in Hf. apply orb_false_elim in Hf. destruct Hf as [Hf1 Hf3]. apply orb_false_elim in Hf1. destruct Hf1 as [Hf1 Hf2].
+  rewrite Hf1, Hf3. cbn. repeat split; auto. intros [E|H]; auto. subst f. discriminate.
+Qed.
+
+Lemma Kinv_pop s f r : Kinv s -> pending s = f :: r -> is_kfunctor f = true -> is_FReset f = false ->
+  Kinv (set_pending s r) /\ k_dead s = false.
+Proof.
+  intros K Hp Hk Hf. kdestr K.
+  assert (Hd : k_dead s = false).
+  { destruct (k_dead s) eqn:D; auto. destruct (Kkd eq_refl) as (_ & _ & _ & Hh). rewrite Hp, has_k_cons, Hk in Hh. discriminate. }
+  split; auto. rewrite Hp, count_rc_cons, Hf in Kch. cbn in Kch.
+  rewrite Hp, nstart_cons in Kxc, Kxc1.
+  split; cbn; auto.
+  - intros D. congruence.
+  - intros H. apply Kxc. destruct H as [H|H]; auto. right. lia.
+  - destruct (is_FStart f); lia.
+  - intros A D T. specialize (Ks0 A D T). rewrite Hp, has_k_cons, Hk in Ks0. discriminate.
+Qed.
+
+Lemma Cinv_pop_neutral s f r : Cinv s -> pending s = f :: r -> (forall c, holds c f = false) -> (forall c, f <> FConnDestroyed c) ->
+  Cinv (set_pending s r).
+Proof. intros [D C] Hp H1 H2. split; auto. cbn. rewrite Hp in C. eapply Cc_pop_neutral; eauto. Qed.
+
+Lemma run_FStart_I s r :
+  Kinv s -> Ksettled s -> Cinv s -> pending s = FStart :: r -> wpT (run_functor (set_pending s r) FStart) (Post s).
+Proof.
+  intros K St C Hp. destruct (Kinv_pop _ _ _ K Hp eq_refl eq_refl) as [K' Hd].
+  cbn [run_functor k_dead set_pending]. rewrite Hd. apply wpT_bind_some.
+  pose proof K as K0. kdestr K0.
+  assert (N : nstart (pending s) <> 0%nat) by (rewrite Hp, nstart_cons; cbn; lia).
+  destruct (Kxc (or_intror N)) as [Q Dl]. apply quiet_spec in Q. destruct Q as (Q1 & Q2 & Q3 & Q4).
+  rewrite Hp, nstart_cons in Kxc1. cbn in Kxc1.
+  assert (Hx : xc s = false) by (destruct (xc s); auto; lia).
+  assert (Hn : nstart r = 0%nat) by (destruct (xc s); lia).
+  assert (C' : Cinv (set_pending s r)) by (eapply Cinv_pop_neutral; eauto; intros; discriminate).
+  eapply wpT_mono; [|apply startInLoop_K; auto].
+  - intros s' (K2 & Kd2 & SC). pose proof (sameC_post _ _ _ K2 Kd2 SC nil_neutral C') as P. unfold Post in *. cbn in P. exact P.
+  - intros Hk. cbn. repeat split; auto. destruct (alive s) eqn:A; auto.
+    assert (T : timers s <> []). { intros T. specialize (St A T). congruence. }
+    specialize (Kdk eq_refl Hd T). cbn in Hk. congruence.
+Qed.
+
+Lemma run_FStop_I s r :
+  Kinv s -> Ksettled s -> Cinv s -> pending s = FStop :: r -> wpT (run_functor (set_pending s r) FStop) (Post s).
+Proof.
+  intros K St C Hp. destruct (Kinv_pop _ _ _ K Hp eq_refl eq_refl) as [K' Hd].
+  cbn [run_functor k_dead set_pending]. rewrite Hd.
+  assert (C' : Cinv (set_pending s r)) by (eapply Cinv_pop_neutral; eauto; intros; discriminate).
+  assert (St' : Ksettled (set_pending s r)) by (eapply Ksettled_same; eauto).
+  unfold stopInLoop. destruct (kstate_eqb (k_state (set_pending s r)) KConnecting) eqn:E.
+  - assert (Hs : k_state (set_pending s r) = KConnecting) by (destruct (k_state (set_pending s r)); cbn in E; congruence).
+    pose proof K' as K0. kdestr K0. destruct (k_chan (set_pending s r)) as [[i [|]]|] eqn:Hc; try (destruct Kch; congruence).
+    unfold removeAndResetChannel. change (k_chan (set_k_state (set_pending s r) KDisconnected)) with (k_chan (set_pending s r)). rewrite Hc.
+    eapply wpT_mono; [|apply (retry_after_unreg (set_pending s r) i true KDisconnected); auto].
+    intros s' (K2 & Kd2 & SC). pose proof (sameC_post _ _ _ K2 Kd2 SC reset_neutral C') as P. unfold Post in *. cbn in P. exact P.
+  - apply wpT_ret. unfold Post. split; [exact K'|split; [|split; [exact C'|cbn; auto]]].
+    apply Kdc_state. intros Hs. rewrite Hs in E. discriminate.
+Qed.
+
+Lemma run_FReset_I s r :
+  Kinv s -> Cinv s -> pending s = FResetChannel :: r -> wpT (run_functor (set_pending s r) FResetChannel) (Post s).
+Proof.
+  intros K C Hp. kdestr K.
+  assert (Hd : k_dead s = false).
+  { destruct (k_dead s) eqn:D; auto. destruct (Kkd eq_refl) as (_ & _ & _ & Hh). rewrite Hp in Hh. discriminate. }
+  cbn [run_functor k_dead set_pending]. rewrite Hd. apply wpT_ret.
+  rewrite Hp, count_rc_cons in Kch. cbn in Kch.
+  destruct (k_chan s) as [[i [|]]|] eqn:Hc; try (destruct Kch; lia). destruct Kch as [Kch1 Kch2].
+  assert (Hrc : count_rc r = 0%nat) by lia.
+  assert (Hq : quiet s = false). { destruct (quiet s) eqn:Q; auto. apply quiet_spec in Q. destruct Q as (_ & Q & _). congruence. }
+  rewrite Hp, nstart_cons in Kxc, Kxc1. cbn in Kxc, Kxc1.
+  unfold Post. split; [|split; [apply Kdc_state; cbn; auto|split; [|cbn; auto]]].
+  - split; cbn; rewrite ?Hrc; auto.
+    + intros D. congruence.
+    + intros H. destruct (Kxc H) as [Q _]. congruence.
+    + intros A D T. specialize (Ks0 A D T). rewrite Hp in Ks0. discriminate.
+  - eapply (Cinv_pop_neutral s); eauto; intros; discriminate.
+Qed.
+
+(* a step that changes only connection objects and queues functors that are not the Connector's *)
+Lemma sameK_conns s f : sameK s (set_conns s f).
+Proof. unfold sameK. cbn. repeat split; auto. Qed.
+Lemma sameK_enq s f : is_kfunctor f = false -> sameK s (enq s f).
+Proof.
+  intros Hf. unfold sameK. cbn. rewrite count_rc_snoc, nstart_snoc, has_k_snoc, Hf.
+  unfold is_kfunctor in Hf. apply orb_false_elim in Hf. destruct Hf as [Hf1 Hf3]. apply orb_false_elim in Hf1. destruct Hf1 as [Hf1 Hf2].
+  rewrite Hf1, Hf3, Nat.add_0_r, Nat.add_0_r, orb_false_r. repeat split; auto. intros H. apply in_or_app. auto.
+Qed.
+Lemma sameK_trans s1 s2 s3 : sameK s1 s2 -> sameK s2 s3 -> sameK s1 s3.
+Proof.
+  unfold sameK. intros (A1 & A2 & A3 & A4 & A5 & A6 & A7 & A8 & A9 & A10 & A11 & A12 & A13 & A14)
+                       (B1 & B2 & B3 & B4 & B5 & B6 & B7 & B8 & B9 & B10 & B11 & B12 & B13 & B14).
+  repeat split; try congruence; auto.
+Qed.
+
+(* TcpConnection::handleClose of a living connection that is up *)
+Lemma handleClose_I s c o :
+  Kinv s -> Kdc s -> Cinv s -> nth_error (conns s) c = Some o -> calive o = true -> c_live (cst o) = true ->
+  (ccb o = CbClient -> count_rc (pending s) = 0%nat) ->
+  wpT (handleClose s c) (Post s).
+Proof.
+  intros K Kd [D C] Ho Ha Hl Hrc. unfold handleClose. rewrite Ho. apply wpT_bind_some.
+  pose proof (Cc_close None _ _ _ _ _ _ Ho Ha Hl (or_introl eq_refl) C) as C1.
+  set (s1 := setc s c (c_set_st CDisconnected)).
+  assert (SK1 : sameK s s1) by apply sameK_conns.
+  destruct (ccb o) eqn:Hb.
+  - (* TcpClient::removeConnection *)
+    pose proof C as C0. cdestr C0. destruct (Ccb _ _ Ho Ha Hl Hb) as [Al Cn].
+    unfold removeConnection. cbn [alive connection s1 setc set_conns]. rewrite Al, Cn, Nat.eqb_refl. cbn [negb].
+    set (s2 := enq (set_connection s1 None) (FConnDestroyed c)).
+    assert (SK2 : sameK s s2).
+    { unfold sameK. cbn. rewrite count_rc_snoc, nstart_snoc, has_k_snoc. cbn. rewrite !Nat.add_0_r, orb_false_r.
+      repeat split; auto; try congruence. intros H. apply in_or_app. auto. }
+    assert (K2 : Kinv s2) by (eapply Kinv_same; eauto).
+    assert (C2 : Cinv s2) by (split; [exact D|exact C1]).
+    destruct (c_retry s2 && c_connect s2).
+    + (* Connector::restart *)
+      unfold restart. apply wpT_bind_some.
+      pose proof K as K0. kdestr K0.
+      assert (Hs : k_state s = KConnected) by (apply Kcn; congruence).
+      assert (Hr : nretry s = 0%nat). { destruct (nretry s) eqn:E; auto. assert (k_state s = KDisconnected) by (apply Krt; congruence). congruence. }
+      specialize (Hrc eq_refl).
+      assert (Hc : k_chan s = None). { destruct (k_chan s) as [[i [|]]|]; auto; destruct Kch; congruence. }
+      assert (Hd : k_dead s = false). { destruct (k_dead s) eqn:E; auto. destruct (Kkd eq_refl). congruence. }
+      assert (Hx : xc s = false /\ nstart (pending s) = 0%nat).
+      { destruct (xc s) eqn:X.
+        - destruct (Kxc (or_introl eq_refl)) as [Q _]. apply quiet_spec in Q. destruct Q as (Q & _). congruence.
+        - split; auto. destruct (nstart (pending s)) eqn:N; auto.
+          destruct (Kxc (or_intror (Nat.neq_succ_0 _))) as [Q _]. apply quiet_spec in Q. destruct Q as (Q & _). congruence. }
+      destruct Hx as [Hx Hn].
+      set (s3 := set_k_connect (set_k_delay (set_k_state s2 KDisconnected) Connector_kInitRetryDelayMs) true).
+      assert (K3 : Kinv s3).
+      { split; cbn; rewrite ?count_rc_snoc, ?nstart_snoc, ?has_k_snoc, ?Hrc, ?Hc, ?Hx, ?Hn, ?Hd, ?Al; cbn; kclause s. }
+      eapply wpT_mono; [|apply startInLoop_K; auto].
+      * intros s' (K' & Kd' & SC).
+        assert (C3 : Cinv s3) by exact C2.
+        pose proof (sameC_post _ _ _ K' Kd' SC nil_neutral C3) as P. unfold Post in *. cbn in P. intuition.
+      * intros _. cbn. rewrite nstart_snoc. cbn. repeat split; auto. lia.
+    + apply wpT_ret. unfold Post. split; [exact K2|split; [eapply Kdc_same; eauto|split; [exact C2|cbn; auto]]].
+  - apply wpT_ret. set (s2 := enq s1 (FConnDestroyed c)).
+    assert (SK2 : sameK s s2) by (eapply sameK_trans; [exact SK1|apply sameK_enq; reflexivity]).
+    unfold Post. split; [eapply Kinv_same; eauto|split; [eapply Kdc_same; eauto|split; [|cbn; auto]]].
+    split; [exact D|exact C1].
+Qed.
+
+Lemma pop_post s f r s' :
+  Kinv s -> Kdc s -> pending s = f :: r -> is_kfunctor f = false ->
+  sameK (set_pending s r) s' -> Cinv s' -> alive s' = alive s -> xc s' = xc s -> xs s' = xs s -> xd s' = xd s -> Post s s'.
+Proof.
+  intros K Kd Hp Hf SK C' E1 E2 E3 E4.
+  assert (SK0 : sameK s s') by (eapply sameK_trans; [eapply pop_sameK; eauto|exact SK]).
+  unfold Post. split; [eapply Kinv_same; eauto|split; [eapply Kdc_same; eauto|auto]].
+Qed.
+
+Lemma run_FConnDestroyed_I s c r :
+  Kinv s -> Kdc s -> Cinv s -> pending s = FConnDestroyed c :: r -> wpT (run_functor (set_pending s r) (FConnDestroyed c)) (Post s).
+Proof.
+  intros K Kd [D C] Hp. rewrite Hp in C. destruct (Cc_pop_fcd _ _ _ _ _ _ C) as (o & Ho & Hl & C').
+  cbn [run_functor conns set_pending]. rewrite Ho, Hl. apply wpT_ret.
+  eapply pop_post; eauto; [apply sameK_conns|split; [exact D|exact C']].
+Qed.
+
+Lemma run_FForceClose_I s c r :
+  Kinv s -> Kdc s -> Cinv s -> pending s = FForceClose c :: r -> wpT (run_functor (set_pending s r) (FForceClose c)) (Post s).
+Proof.
+  intros K Kd [D C] Hp. rewrite Hp in C. destruct (Cc_pop_ffc _ _ _ _ _ C) as (o & Ho & Hb & Ha & Cx & Cn).
+  cbn [run_functor conns set_pending]. rewrite Ho. destruct (c_live (cst o)) eqn:Hl.
+  - unfold handleClose. cbn [conns set_pending]. rewrite Ho, Hb. apply wpT_bind_some. apply wpT_ret.
+    pose proof (Cc_close (Some c) _ _ _ _ _ _ Ho Ha Hl (or_intror eq_refl) Cx) as C1. rewrite Hb in C1.
+    eapply pop_post; eauto.
+    + eapply sameK_trans; [apply sameK_conns|apply sameK_enq; reflexivity].
+    + split; [exact D|exact C1].
+  - apply wpT_ret. eapply pop_post; eauto.
+    + unfold sameK. repeat split; auto.
+    + split; [exact D|exact (Cn eq_refl)].
+Qed.
+
+Lemma run_FShutdown_I s c r :
+  Kinv s -> Kdc s -> Cinv s -> pending s = FShutdown c :: r -> wpT (run_functor (set_pending s r) (FShutdown c)) (Post s).
+Proof.
+  intros K Kd [D C] Hp. rewrite Hp in C.
+  pose proof C as C0. cdestr C0. destruct (Cfs c (or_introl eq_refl)) as (o & Ho & Ha & _).
+  cbn [run_functor conns set_pending]. rewrite Ho, Ha. apply wpT_ret.
+  assert (C1 : Cc None (alive s) (connection s) (conns s) r) by (eapply Cc_pop_neutral; [| |exact C]; intros; [reflexivity|discriminate]).
+  eapply pop_post; eauto; [apply sameK_conns|split; [exact D|]].
+  cbn. eapply Cc_upd; eauto; destruct o; cbn; auto; try tauto.
+  destruct (Cst _ _ Ho Ha) as (S1 & _). exact S1.
+Qed.
+
+(* TcpConnection::shutdown() as called by TcpClient::disconnect() *)
+Lemma conn_shutdown_I s c b :
+  Kinv s -> Kdc s -> Cinv s -> connection s = Some c -> wpT (conn_shutdown s c b) (Post s).
+Proof.
+  intros K Kd [D C] Hcn. pose proof C as C0. cdestr C0. destruct (Ccn _ Hcn) as (o & Ho & Ha & Hl & Hb).
+  unfold conn_shutdown. rewrite Ho.
+  assert (P0 : Post s s) by (unfold Post; split; [exact K|split; [exact Kd|split; [split; [exact D|exact C]|auto]]]).
+  destruct (cst o) eqn:Hs; try (apply wpT_ret; exact P0).
+  assert (C1 : Cc None (alive s) (connection s) (upd (conns s) c (c_set_st CDisconnecting)) (pending s)).
+  { eapply Cc_upd; eauto; destruct o; cbn in *; subst; auto; try discriminate. split; discriminate. }
+  destruct b.
+  - assert (Ho1 : nth_error (upd (conns s) c (c_set_st CDisconnecting)) c = Some (c_set_st CDisconnecting o)) by (rewrite nth_error_upd_same, Ho; reflexivity).
+    assert (C2 : Cc None (alive s) (connection s) (upd (upd (conns s) c (c_set_st CDisconnecting)) c (c_set_fin true)) (pending s)).
+    { eapply Cc_upd; eauto; destruct o; cbn in *; auto; try discriminate. tauto. }
+    unfold Post. split; [eapply Kinv_same; eauto; eapply sameK_trans; apply sameK_conns|].
+    split; [eapply Kdc_same; eauto; eapply sameK_trans; apply sameK_conns|]. split; [split; [exact D|exact C2]|cbn; auto].
+  - apply wpT_ret.
+    assert (Ho1 : nth_error (upd (conns s) c (c_set_st CDisconnecting)) c = Some (c_set_st CDisconnecting o)) by (rewrite nth_error_upd_same, Ho; reflexivity).
+    assert (C2 : Cc None (alive s) (connection s) (upd (conns s) c (c_set_st CDisconnecting)) (pending s ++ [FShutdown c])).
+    { eapply Cc_enq_fsh; eauto; destruct o; cbn in *; auto. }
+    assert (SK : sameK s (enq (setc s c (c_set_st CDisconnecting)) (FShutdown c))) by (eapply sameK_trans; [apply sameK_conns|apply sameK_enq; reflexivity]).
+    unfold Post. split; [eapply Kinv_same; eauto|split; [eapply Kdc_same; eauto|split; [split; [exact D|exact C2]|cbn; auto]]].
+Qed.
+
+(* ------------------------------------------------------------------ ~TcpClient on the loop thread *)
+Definition PostD (s s' : st) : Prop :=
+  Kinv s' /\ Kdc s' /\ Cinv s' /\ alive s' = false /\ xc s' = xc s /\ xs s' = xs s /\ xd s' = xd s.
+
+Lemma existsb_has_k q : existsb is_kfunctor q = has_k q.
+Proof. reflexivity. Qed.
+
+Lemma destroy_I s :
+  Kinv s -> Kdc s -> Cinv s -> Crefs s -> alive s = true -> xc s = false -> destroy_ok s = true ->
+  wpT (destroy_rest s (connection s, match connection s with Some c => (refs s c =? 1)%nat | None => false end) true) (PostD s).
+Proof.
+  intros K Kd [D C] Cr Al Hx Hok. pose proof K as K0. kdestr K0.
+  assert (Hd : k_dead s = false). { destruct (k_dead s) eqn:E; auto. destruct (Kkd eq_refl). congruence. }
+  unfold destroy_rest. destruct (connection s) as [c|] eqn:Hcn.
+  - (* with a connection: the Connector is released at once *)
+    unfold destroy_ok in Hok. rewrite Hcn in Hok. cbn in Hok. rewrite existsb_has_k in Hok.
+    assert (Hk : has_k (pending s) = false) by (destruct (has_k (pending s)); auto; discriminate).
+    pose proof (has_k_count_rc _ Hk) as Hrc. pose proof (has_k_nstart _ Hk) as Hn.
+    assert (Hs : k_state s = KConnected) by (apply Kcn; congruence).
+    assert (Hc : k_chan s = None). { destruct (k_chan s) as [[i [|]]|]; auto; destruct Kch as [Kc1 Kc2]; try congruence; lia. }
+    assert (Hr : nretry s = 0%nat). { destruct (nretry s) eqn:E; auto. assert (k_state s = KDisconnected) by (apply Krt; congruence). congruence. }
+    assert (Ht : timers s = []). { specialize (Khk Al). rewrite Hr in Khk. destruct (timers s); auto; discriminate. }
+    rewrite (refs_refsC _ _ D), Hcn.
+    pose proof C as C0. cdestr C0. destruct (Ccn c eq_refl) as (o & Ho & Ha & Hl & Hb).
+    pose proof (Cc_detach _ _ _ _ C) as C1.
+    assert (Ho1 : nth_error (upd (conns s) c (c_set_cb CbDetached)) c = Some (c_set_cb CbDetached o)) by (rewrite nth_error_upd_same, Ho; reflexivity).
+    destruct (refsC (Some c) (conns s) (pending s) c =? 1)%nat eqn:U.
+    + unfold conn_forceClose. cbn [conns setc set_conns]. rewrite Ho1.
+      assert (Hl1 : c_live (cst (c_set_cb CbDetached o)) = true) by (destruct o; auto). rewrite Hl1.
+      assert (C2 : Cc (Some c) false None (upd (upd (conns s) c (c_set_cb CbDetached)) c (c_set_st CDisconnecting)) (pending s)).
+      { eapply Cc_upd; eauto; destruct o; cbn in *; auto; try discriminate. split; intros; subst; discriminate. }
+      assert (C3 : Cc None false None (upd (upd (conns s) c (c_set_cb CbDetached)) c (c_set_st CDisconnecting)) (pending s ++ [FForceClose c])).
+      { apply (Cc_enq_ffc _ _ _ _ _ (c_set_st CDisconnecting (c_set_cb CbDetached o))); auto;
+        try (rewrite nth_error_upd_same, Ho1; reflexivity); destruct o; auto. }
+      cbn. unfold PostD. cbn. split; [|split; [apply Kdc_state; cbn; congruence|split; [split; [reflexivity|exact C3]|auto]]].
+      split; cbn; rewrite ?count_rc_snoc, ?nstart_snoc, ?has_k_snoc, ?Hrc, ?Hn, ?Hk, ?Hc, ?Hx, ?Hd, ?Ht; cbn; kclause s.
+    + assert (C2 : Cc None false None (upd (conns s) c (c_set_cb CbDetached)) (pending s)).
+      { apply (Cc_ex_strengthen _ _ _ _ c); auto.
+        rewrite refsC_upd by (intros x _; destruct x; reflexivity).
+        pose proof (Cr _ _ Ho Ha) as R. rewrite Hcn in R. rewrite refsC_cn, Nat.eqb_refl in R.
+        apply Nat.eqb_neq in U. rewrite refsC_cn, Nat.eqb_refl in U. lia. }
+      cbn. unfold PostD. cbn. split; [|split; [apply Kdc_state; cbn; congruence|split; [split; [reflexivity|exact C2]|auto]]].
+      split; cbn; rewrite ?Hrc, ?Hn, ?Hk, ?Hc, ?Hx, ?Hd, ?Ht; cbn; kclause s.
+  - (* without: stop the connector, keep it alive for a second *)
+    cbn. unfold PostD. cbn. split; [|split; [|split; [split; [reflexivity|]|auto]]].
+    + split; cbn; rewrite ?count_rc_snoc, ?nstart_snoc, ?has_k_snoc, ?Hx, ?Hd; cbn; rewrite ?Nat.add_0_r; kclause s.
+      * erewrite (nretry_hack s) by reflexivity. exact Krt.
+      * erewrite (nretry_hack s) by reflexivity. exact Krt1.
+      * intros [H|H]; [discriminate|]. destruct (Kxc (or_intror H)) as [Q Dl]. split; auto.
+        rewrite quiet_spec in *. cbn. erewrite (nretry_hack s) by reflexivity. intuition.
+      * intros _ _ E. destruct (timers s); discriminate.
+    + unfold Kdc. cbn. intros _ _ _. apply in_or_app. right. left. reflexivity.
+    + apply (Cc_al_false _ (alive s)). apply Cc_app_k; auto. intros f [<-|[]]. reflexivity.
+Qed.
+
+(* ------------------------------------------------------------------ gc, settle, finish *)
+(* what gc leaves alone: everything but the connection objects' `alive` flags and the socket table *)
+Definition gcsame (s s' : st) : Prop :=
+  alive s' = alive s /\ connection s' = connection s /\ dsnap s' = dsnap s /\ pending s' = pending s /\
+  k_dead s' = k_dead s /\ k_chan s' = k_chan s /\ k_state s' = k_state s /\ k_connect s' = k_connect s /\
+  k_delay s' = k_delay s /\ timers s' = timers s /\ xc s' = xc s /\ xs s' = xs s /\ xd s' = xd s /\
+  length (conns s') = length (conns s).
+Lemma gcsame_refl s : gcsame s s.
+Proof. unfold gcsame. repeat split; auto. Qed.
+Lemma gcsame_trans s1 s2 s3 : gcsame s1 s2 -> gcsame s2 s3 -> gcsame s1 s3.
+Proof. unfold gcsame. intuition congruence. Qed.
+Lemma gcsame_sameK s s' : gcsame s s' -> sameK s s'.
+Proof. unfold gcsame, sameK. intros (A1&A2&A3&A4&A5&A6&A7&A8&A9&A10&A11&A12&A13&A14). rewrite A4, A2. repeat split; auto. Qed.
+
+Lemma gc_from_I n : forall c s,
+  Cinv s -> (forall c' o, (c' < c)%nat -> nth_error (conns s) c' = Some o -> calive o = true -> (1 <= refsC (connection s) (conns s) (pending s) c')%nat) ->
+  wpT (gc_from n c s) (fun s' => Cinv s' /\ gcsame s s' /\
+     (forall c' o, (c' < c + n)%nat -> nth_error (conns s') c' = Some o -> calive o = true -> (1 <= refsC (connection s') (conns s') (pending s') c')%nat)).
+Proof.
+  induction n as [|n IH]; intros c s [D C] Hlt; cbn [gc_from].
+  - apply wpT_ret. split; [split; auto|]. split; [apply gcsame_refl|]. intros c' o L. apply Hlt. lia.
+  - destruct (nth_error (conns s) c) as [o|] eqn:Ho.
+    + destruct (calive o && (refs s c =? 0)%nat) eqn:G.
+      * apply andb_prop in G. destruct G as [Ga Gz]. apply Nat.eqb_eq in Gz. rewrite (refs_refsC _ _ D) in Gz.
+        destruct (Cc_kill _ _ _ _ _ _ Ho Ga Gz C) as (Hs & Hg & C').
+        rewrite Hs, Hg. apply wpT_bind_some.
+        set (s1 := set_socks (setc s c (c_set_alive false)) (upd (socks s) (csock o) conn_close_state)).
+        assert (R : forall c', refsC (connection s1) (conns s1) (pending s1) c' = refsC (connection s) (conns s) (pending s) c').
+        { intros c'. cbn. apply refsC_upd. intros x _. destruct x; reflexivity. }
+        eapply wpT_mono; [|apply (IH (S c) s1)].
+        -- intros s' (C2 & G2 & H2). split; auto. split.
+           ++ eapply gcsame_trans; [|exact G2]. unfold gcsame. cbn. rewrite length_upd. repeat split; auto.
+           ++ intros c' o' L. apply H2. lia.
+        -- split; [exact D|exact C'].
+        -- intros c' o' L. rewrite R. cbn. rewrite nth_error_upd. destruct (Nat.eq_dec c c') as [<-|Ne].
+           ++ rewrite Ho. cbn. intros [= <-]. destruct o; cbn. discriminate.
+           ++ intros H A. apply (Hlt c' o'); auto. lia.
+      * eapply wpT_mono; [|apply (IH (S c) s); [split; auto|]].
+        -- intros s' (C2 & G2 & H2). split; auto. split; auto. intros c' o' L. apply H2. lia.
+        -- intros c' o' L H A. destruct (Nat.eq_dec c' c) as [->|Ne]; [|apply (Hlt c' o'); auto; lia].
+           rewrite Ho in H. injection H as <-. rewrite A in G. cbn in G. apply Nat.eqb_neq in G. rewrite (refs_refsC _ _ D) in G. lia.
+    + apply wpT_ret. split; [split; auto|]. split; [apply gcsame_refl|].
+      intros c' o' L H. assert (c' < length (conns s))%nat by (eapply nth_error_lt; eauto).
+      assert (length (conns s) <= c)%nat by (apply nth_error_None; auto). apply Hlt; auto. lia.
+Qed.
+
+Definition Xinv (s : st) : Prop := alive s = false -> xc s = false /\ xs s = false /\ xd s = false.
+Definition Inv (s : st) : Prop := Kinv s /\ Kdc s /\ Ksettled s /\ Cinv s /\ Crefs s /\ Xinv s.
+Definition Inv0 (s : st) : Prop := Kinv s /\ Kdc s /\ Cinv s /\ Xinv s.
+
+Lemma finish_I m : wpT m Inv0 -> wpT (finish m) Inv.
+Proof.
+  intros H. unfold finish. apply wpT_bind. apply wpT_bind. eapply wpT_mono; [|exact H].
+  intros s (K & Kd & C & X). unfold gc.
+  eapply wpT_mono; [|apply gc_from_I; [exact C|intros c' o L; lia]].
+  intros s1 (C1 & G & R).
+  assert (SK : sameK s s1) by (apply gcsame_sameK; auto).
+  assert (K1 : Kinv s1) by (eapply Kinv_same; eauto).
+  assert (Kd1 : Kdc s1) by (eapply Kdc_same; eauto).
+  assert (Cr1 : Crefs s1). { intros c o Ho Ha. apply (R c o); auto. cbn. destruct G as (_&_&_&_&_&_&_&_&_&_&_&_&_&GL). rewrite <- GL. eapply nth_error_lt; eauto. }
+  assert (X1 : Xinv s1). { destruct G as (A1&_&_&_&_&_&_&_&_&_&A11&A12&A13&_). unfold Xinv. rewrite A1, A11, A12, A13. exact X. }
+  unfold settle.
+  destruct (negb (alive s1) && negb (k_dead s1) && (length (timers s1) =? 0)%nat && negb (existsb is_addhack (pending s1))) eqn:E.
+  - apply andb_prop in E. destruct E as [E E4]. apply andb_prop in E. destruct E as [E E3]. apply andb_prop in E. destruct E as [E1 E2].
+    assert (A : alive s1 = false) by (destruct (alive s1); auto; discriminate).
+    assert (Dd : k_dead s1 = false) by (destruct (k_dead s1); auto; discriminate).
+    assert (T : timers s1 = []) by (destruct (timers s1); auto; discriminate).
+    pose proof K1 as K0. kdestr K0. pose proof (Ks0 A Dd T) as Hk.
+    assert (Hc : k_chan s1 = None).
+    { pose proof (has_k_count_rc _ Hk) as Hrc. destruct (k_chan s1) as [[i [|]]|]; auto; destruct Kch as [Kc1 Kc2]; try lia.
+      exfalso. apply (has_k_no_stop _ Hk). apply Kd1; auto. }
+    rewrite Hc. apply wpT_ret. unfold Inv. split; [|split; [|split; [|split; [exact C1|split; [exact Cr1|exact X1]]]]].
+    + split; cbn; rewrite ?Hc, ?A, ?T, ?Hk; auto; try congruence.
+      rewrite Hc in Kch. exact Kch.
+    + unfold Kdc. cbn. congruence.
+    + unfold Ksettled. cbn. auto.
+  - apply wpT_ret. unfold Inv. split; [exact K1|split; [exact Kd1|split; [|split; [exact C1|split; [exact Cr1|exact X1]]]]].
+    unfold Ksettled. intros A T. rewrite A, T in E. cbn in E. destruct (k_dead s1); auto. cbn in E.
+    destruct C1 as [_ C1]. destruct C1 as [Cna _ _ _ _ _ _ _ _ _ _ _].
+    assert (existsb is_addhack (pending s1) = false); [|rewrite H0 in E; discriminate].
+    destruct (existsb is_addhack (pending s1)) eqn:EE; auto. apply existsb_exists in EE. destruct EE as (f & Hf & Hh).
+    specialize (Cna _ Hf). destruct f; cbn in *; discriminate.
 Qed.
